@@ -48,3 +48,36 @@ func TestC50OutfileEscapesEnclosure(t *testing.T) {
 		t.Errorf("ENCLOSED BY '\"': exported %s, reloaded %s", src, dst)
 	}
 }
+
+// C50-O3 loadDataIter.parseFields/word "NULL" read as NULL with escaping enabled: the reader turns the escape sequence \N into
+// the in-band marker "NULL" and then maps every field whose text is NULL to SQL NULL, enclosed or not, escaping or not; the
+// writer emits the string value 'NULL' verbatim, so it comes back as SQL NULL.
+func TestC50StringNULLIsNotReadAsNull(t *testing.T) {
+	for _, opts := range []string{"", `FIELDS TERMINATED BY ',' ENCLOSED BY '"'`} {
+		src, dst, raw := c50RoundTrip(t, opts, "NULL")
+		t.Logf("[%s] file: %q", opts, raw)
+		if src != dst {
+			t.Errorf("[%s]: exported %s, reloaded %s", opts, src, dst)
+		}
+	}
+}
+
+// C50-O3 BaseBuilder.buildInto/escape letters honoured whenever written: with ENCLOSED BY and ESCAPED BY set to the same
+// character the writer still writes NULL as <escape>N, but the reader switches escape-letter processing off in that case
+// (doubling only), so the marker is read as data.
+func TestC50NullMarkerWhenEnclosureEqualsEscape(t *testing.T) {
+	e, ctx := newEngine(t)
+	file := filepath.Join(t.TempDir(), "out.txt")
+	opts := `FIELDS TERMINATED BY ',' ENCLOSED BY '$' ESCAPED BY '$'`
+	mustRun(t, e, ctx, "CREATE TABLE src (a varchar(50), b varchar(50))")
+	mustRun(t, e, ctx, "CREATE TABLE dst (a varchar(50), b varchar(50))")
+	mustRun(t, e, ctx, "INSERT INTO src VALUES (NULL, 'x')")
+	mustRun(t, e, ctx, "SELECT a, b FROM src INTO OUTFILE '"+file+"' "+opts)
+	raw, _ := os.ReadFile(file)
+	t.Logf("file: %q", raw)
+	mustRun(t, e, ctx, "LOAD DATA INFILE '"+file+"' INTO TABLE dst "+opts)
+	src, dst := show(mustRun(t, e, ctx, "SELECT a, b FROM src")), show(mustRun(t, e, ctx, "SELECT a, b FROM dst"))
+	if src != dst {
+		t.Errorf("exported %s, reloaded %s", src, dst)
+	}
+}
